@@ -268,3 +268,40 @@ pub fn stub_value_partial_cmp_scalar(a: &Value, b: &Value) -> Option<std::cmp::O
         _ => scalar_rank(a).partial_cmp(&scalar_rank(b)),
     }
 }
+
+/// `RandomState::new()`: fixed keys (the seed is environment; hash-map iteration order is never observed by a claimed check)
+pub fn stub_random_state_new() -> std::hash::RandomState {
+    unsafe { std::mem::transmute::<(u64, u64), std::hash::RandomState>((1u64, 2u64)) }
+}
+
+/// `str::to_lowercase` for the harnesses whose identifiers are lower-case ASCII already (Unicode case tables
+/// and the char-boundary search of the real function dominate symbolic execution otherwise): identity.
+pub fn stub_to_lowercase_ascii_lower(s: &str) -> String {
+    s.to_owned()
+}
+
+/// `core::str::slice_error_fail`: the panic of an out-of-range / non-boundary str slice, without computing its
+/// message (which searches char boundaries in loops).
+pub fn stub_slice_error_fail(_s: &str, _begin: usize, _end: usize) -> ! {
+    panic!("str slice out of range or not on a char boundary")
+}
+
+/// Like `stub_value_clone_scalar`, but also clones arrays of scalars (element type a scalar type, elements
+/// scalars): one level, no recursion.  Used by the array-subscript harnesses.
+pub fn stub_value_clone_array1(v: &Value) -> Value {
+    match v {
+        Value::Array(t, items) => {
+            let t2 = match t {
+                ValueType::Int => ValueType::Int, ValueType::Float => ValueType::Float, ValueType::Bool => ValueType::Bool,
+                ValueType::String => ValueType::String, ValueType::Timestamp => ValueType::Timestamp, ValueType::Interval => ValueType::Interval,
+                ValueType::Array(_) => { kani::assume(false); ValueType::Int }
+            };
+            let mut out = Vec::with_capacity(2);
+            if items.len() > 0 { out.push(stub_value_clone_scalar(&items[0])); }
+            if items.len() > 1 { out.push(stub_value_clone_scalar(&items[1])); }
+            kani::assume(items.len() <= 2);
+            Value::Array(t2, out)
+        }
+        other => stub_value_clone_scalar(other),
+    }
+}
